@@ -133,6 +133,33 @@ func judgeC18(c *Ctx, sc *Scenario) *Violation {
 	if res.Hang {
 		return &Violation{"C18/hang", ""}
 	}
+	faulted := false
+	for _, pp := range sc.Plan.Peers {
+		if pp != nil && len(pp.Faults) > 0 {
+			faulted = true
+		}
+	}
+	if faulted {
+		// a scan that fails: progress must not change stdout either
+		q := *sc
+		q.Inv.Args = nil
+		for _, a := range sc.Inv.Args {
+			if a == "--progress" {
+				a = "--no-progress"
+			}
+			q.Inv.Args = append(q.Inv.Args, a)
+		}
+		rq := RunA(c.T, c.H, &q, site)
+		c.Stats.AddResult(rq)
+		if rq.Panic != "" || rq.Hang {
+			return nil // C10's business
+		}
+		if res.Failed != rq.Failed || !bytes.Equal(res.Stdout, rq.Stdout) {
+			return &Violation{"C18/stdout-changed-by-progress", fmt.Sprintf("failing scan (%s): with --progress failed=%v stdout %q; with --no-progress failed=%v stdout %q", describeFaults(&sc.Plan), res.Failed, firstBytes(res.Stdout, 200), rq.Failed, firstBytes(rq.Stdout, 200))}
+		}
+		c.Stats.Probe("failing-scan-twins-compared")
+		return nil
+	}
 	if res.Failed {
 		return &Violation{"C18/run-failed", res.Err}
 	}
@@ -251,6 +278,10 @@ func checkC18(c *Ctx, rt *rapid.T) {
 		if len(pl.Peers[k].Chunks) == 0 {
 			pl.Peers[k].Chunks = []int{g.Int(20, 200, k+"slowchunk")}
 		}
+	}
+	if g.Chance(1, 4, "failingscan") {
+		k := g.PickStr(peerKinds, "faultpeer")
+		pl.Peers[k].Faults = []Fault{genFault(g, k)}
 	}
 	sc := &Scenario{Format: 1, Property: "C18", Engine: "A", World: w, Inv: inv, Plan: pl, Params: c18Params{Mode: "cli", RefOpts: refopts}}
 	if v := judgeC18(c, sc); v != nil {
